@@ -11,9 +11,10 @@ import InToto.Generated.Facts
 import InToto.Model.SchemaFacts
 import InToto.Proofs.Injective
 import InToto.Proofs.FileRoundTrip
+import InToto.Proofs.Refusal
 
 namespace InToto.C11
-open InToto InToto.Json InToto.JsonProofs InToto.Metadata InToto.InjectiveProofs InToto.Schema InToto.SchemaProofs InToto.FileProofs
+open InToto InToto.Json InToto.JsonProofs InToto.Metadata InToto.InjectiveProofs InToto.Schema InToto.SchemaProofs InToto.FileProofs InToto.RefusalProofs InToto.Sign
 
 /-- C11 (DSSE): the payload bytes are valid JSON — a strict RFC 8259 parser reads them back to
     exactly the (key-sorted) JSON value of the metadata that was set, whatever characters its
@@ -111,5 +112,24 @@ theorem same_signed_bytes_same_layout (v w : TVal) (hv : WT tyLayout v) (hw : WT
   have e2 := decode_sorted true tyLayout w goodTy_layout hw
   rw [hj, e2] at e1
   exact (Option.some.inj e1).symm
+
+/-- C11 ("content that cannot be represented is refused with an error rather than signed
+    approximately"): a by-product with a non-integral number has NO signed bytes in either wrapper,
+    for every well-typed link -/
+theorem fraction_has_no_signed_bytes (v : TVal) (hv : WT tyLink v) :
+    canonPayload (setFracP (.link v)) = none ∧ payloadBytes (setFracP (.link v)) = none :=
+  frac_has_no_bytes v hv
+
+/-- `SetPayload` refuses it … -/
+theorem set_payload_refuses_fraction (v : TVal) (hv : WT tyLink v) :
+    (setPayload (setFracP (.link v))).isOk = false :=
+  setPayload_refuses_fraction v hv
+
+/-- … and the envelope that was offered it stays EXACTLY as it was (payload type, payload bytes,
+    signatures, decoded payload); the caller sees an error -/
+theorem refused_content_leaves_envelope_unchanged (st : SState) (pt pl : Str) (sigs : TVal) (v : TVal)
+    (hmd : st.md = .dsse pt pl sigs (.link v)) (hv : WT tyLink v) :
+    trySetFrac st = (st, "err:same") :=
+  envelope_unchanged_by_refused_content st pt pl sigs v hmd hv
 
 end InToto.C11
